@@ -103,11 +103,9 @@ func (a *AttrConditionPlanner) aggregator(main sql.ISelect) ([]sql.SQLCondition,
 	attr := a.AggregatedAttr
 	if strings.HasPrefix(attr, "span.") {
 		attr = attr[5:]
-	}
-	if strings.HasPrefix(attr, "resource.") {
+	} else if strings.HasPrefix(attr, "resource.") {
 		attr = attr[9:]
-	}
-	if strings.HasPrefix(attr, ".") {
+	} else if strings.HasPrefix(attr, ".") {
 		attr = attr[1:]
 	}
 	s = append(s, sql.NewCol(&sqlAttrValue{attr}, "agg_val"))
